@@ -146,3 +146,28 @@ claim("C20", "model_checking",
       "All histories to depth 3 over 12 operations (depth 4 over 8, deeper in strata) x 36 pattern/flag pairs and 118 "
       "patterns x 4 flag sets x 31 subjects through match/replace/replaceAll/split/search (templates, function replacers, "
       "limits, preset lastIndex) agree with V8 after every step.", _V8)
+
+
+# what was added after these texts were written (spaces listed in DESIGN.md 0.6; counts in EVIDENCE_SUMMARY.md)
+ADDENDA = {
+    "C01": " Later additions: tree recursions through eval / Function / callbacks where no single activation runs long, a regex family of 25 000 short attempts, regexes kept across contexts, error names shadowed by script globals.",
+    "C02": " Later additions: all 205 try shapes, 58 degenerate statements and two-level constructs inside handler blocks in up to 5 placements; native re-entry and callback-base depths are measured too; 3000-iteration long runs.",
+    "C03": " Later additions: every built-in method on 35 receiver kinds x 20 argument vectors, every operator on all pairs of 19 special operands, built-ins standing in as getter / setter / callback, and 10 kinds of Python callable are walked the same way.",
+    "C04": " Later additions: 19 earlier steps that leave and re-enter the interpreter x 49 later callback-taking built-ins give what the later call gives alone; counts around the one-byte operand limit are refused or run; assign-special-property-then-call sequences; mutating callbacks as arguments.",
+    "C05": " Later additions: multi-labelled loops, control structures inside handler blocks, functions defined in statement positions, loop targets that are not fresh variables and all 20 245 switch shapes of 0..3 clauses x exits x enclosings.",
+    "C06": " Later additions: 17 further assignment-target kinds (captured, parameter, arguments and typed-array elements, accessors, inherited members ...) x 46 forms x 12 initial values.",
+    "C07": " Later additions: 2 016 mid-expression throws, 391 uncaught throws, 15 x 15 nested built-ins with the handler between / outside / inside, depth-limit recovery, break / continue inside finally with a pending completion, 20 error objects x 17 renderings, line / column under shifts and multi-line preludes.",
+    "C08": " Later additions: object literals with colliding definitions, three-level accessor chains, bind chains, the Object.* API over receivers x keys x descriptors, apply argument lists, enumerability of built-ins and the prototype chain of values by provenance, all against V8.",
+    "C09": " Later additions: class escapes and case mapping over 58 characters, counted quantifiers, many groups and multi-digit back-references.",
+    "C10": " Later additions: lookaround scan families, deep backtrack stacks, many-short-matches, and lastIndex positions x flags x subjects x calls.",
+    "C11": " Later additions: integers beyond 2^53 round-trip exactly and are usable in 107 numeric positions without a host exception; host containers arrive as ordinary arrays / objects of the context; 10 kinds of Python callable and 18 call forms deliver the listed arguments; a callable returning the same mutable object.",
+    "C12": " Later additions: the alphabet has ~36 operations (kept arrays / regexes / methods, redeclared globals, labels after syntax errors ...) and 13 probes; a brand-new context answers 19 probes identically before and after every operation was repeated up to 250 times elsewhere.",
+    "C13": " Later additions: compound primaries in delimited positions, all small trees of nested blocks in 16 positions, two redundant parenthesis pairs at once, 43 characters x all escape spellings, every two spellings of one character compared inside the engine.",
+    "C14": " Later additions: 71 templates in all (one variable kind at a time; small constructs placed AFTER n statements), the 32767-byte boundary, 11 numeric-literal spellings x 53 lengths, a too-large program refused n times inside eval / Function.",
+    "C15": " Later additions: 1 860+ programs incl. key-order programs with a self-check, each failing program repeated 110 times with its context kept alive, 22 observers of built-in objects unchanged after each of 35 mutators ran on another context, built-ins on inputs beyond 1024 elements under every seed.",
+    "C16": " Later additions: regular-expression arguments to 13 methods, arguments whose conversion throws the first time only, replacer results containing $-patterns.",
+    "C17": " Later additions: copies built from views, 25 typed-array construction sources x 10 uses, keys that are / are not canonical indices (read, write, in, hasOwnProperty, descriptors), callbacks that replace the element list, array-to-string answers before / after k failed conversions.",
+    "C18": " Later additions: numeric literals as property names, numeric strings of up to 5000 characters at 19 conversion sites, parse functions applied to number values over the doubles grid.",
+    "C19": " Later additions: 72 non-representable things x 8 positions (non-finite typed elements, surrogate arrangements, accessor-object key order) and 14 re-entrant calls.",
+    "C20": " Later additions: 7 200 histories on subjects with a character outside the BMP, lastIndex in the middle of a surrogate pair, and the RegExp object API (constructor arguments, renderings, accessors, missing arguments).",
+}
